@@ -16,7 +16,7 @@ PROP = "C18"
 LEVEL_NOTE = ("theorems hold for every rule set, path and every regex semantics (matching is a parameter); Python's re is trusted; "
               "reading: global_deny and global_patterns apply to every file, also to files governed by a directory rule")
 
-KEYS = ["src", "src/models", "tests", "/", "lib", "docs", "src/models/deep", "sr"]
+KEYS = ["src", "src/models", "tests", "/", "lib", "docs", "src/models/deep", "sr", "src/", "lib/", "scripts"]
 PATTERNS = [r".*\.py$", r"test_.*", r".*_model\.py$", r"^(?!src/).*\.ts$", r".*\.(md|txt)$", r"__init__\.py$", r"tmp", r"\.yaml$", r"^src/", r".*",
             # anchors that belong to one alternative only, anchors inside groups, an end anchor first, inline flags, a lazy prefix
             r"^docs/|\.md$", r"^tests/|_model\.py$|^top", r"(^lib/|models/)", r"\.ts$|^src2/", r"(?s)^.*deep.*$", r"^$|helper", r".*?models/.*?\.py", r"\Asrc/|file\.py\Z"]
@@ -55,7 +55,11 @@ def gen_config(rng):
     dirs = None
     if rng.random() < 0.85:
         dirs = []
+        seen = set()
         for key in rng.sample(KEYS, rng.randint(1, 4)):
+            if key.rstrip("/") in seen:
+                continue      # one rule per directory: `src` and `src/` name the same one
+            seen.add(key.rstrip("/"))
             r = {"key": key, "deny": None, "allow": None}
             m = rng.random()
             if m < 0.15:
